@@ -3,8 +3,11 @@ package props
 import (
 	"context"
 	"fmt"
+	"runtime"
 	"strings"
 	"sync"
+	"sync/atomic"
+	"time"
 
 	"cuelabs.dev/go/oci/ociregistry"
 )
@@ -14,39 +17,56 @@ import (
 // (writes, tag reads, listings, writer methods): the "late" member does not
 // start its k-th gated call before the "early" member has finished its k-th.
 type orderGate struct {
-	mu    sync.Mutex
-	cond  *sync.Cond
-	early int // gated calls completed by the early member
+	mu     sync.Mutex
+	early  int    // gated calls completed by the early member
+	broken string // set when the members' calls fell out of step (see wait)
 }
 
-func newOrderGate() *orderGate {
-	g := &orderGate{}
-	g.cond = sync.NewCond(&g.mu)
-	return g
-}
+func newOrderGate() *orderGate { return &orderGate{} }
+
+// c15GatesOff is set after the first gate that had to give up: from then on no gate waits, so that a
+// unifier which does not call its members in step is reported once instead of stalling every state.
+var c15GatesOff atomic.Bool
+
+// c15GateTimeout is how long the late member waits for the early member's matching call. Both calls
+// are issued by the unifier for the same operation, normally microseconds apart.
+const c15GateTimeout = 20 * time.Second
 
 type gatedMember struct {
 	ociregistry.Interface
 	g     *orderGate
 	late  bool
-	calls int
+	calls atomic.Int64
 }
 
 func (m *gatedMember) enter() func() {
-	m.calls++
-	k := m.calls
+	k := int(m.calls.Add(1))
 	if m.late {
+		deadline := time.Now().Add(c15GateTimeout)
+		spins := 0
 		m.g.mu.Lock()
-		for m.g.early < k {
-			m.g.cond.Wait()
+		for m.g.early < k && !c15GatesOff.Load() {
+			if time.Now().After(deadline) {
+				m.g.broken = fmt.Sprintf("member call %d of the late member has no matching call of the other member after %v: the unifier does not send this operation to both members in step", k, c15GateTimeout)
+				c15GatesOff.Store(true)
+				break
+			}
+			m.g.mu.Unlock()
+			if spins++; spins < 200 {
+				runtime.Gosched()
+			} else {
+				time.Sleep(50 * time.Microsecond)
+			}
+			m.g.mu.Lock()
 		}
 		m.g.mu.Unlock()
 		return func() {}
 	}
 	return func() {
 		m.g.mu.Lock()
-		m.g.early = k
-		m.g.cond.Broadcast()
+		if k > m.g.early {
+			m.g.early = k
+		}
 		m.g.mu.Unlock()
 	}
 }
